@@ -130,6 +130,15 @@ func handWrittenComponents(c *Ctx) {
 		var renders, clears, gets []*ast.CallExpr
 		var returns []*ast.ReturnStmt
 		delegates := false
+		// a deferred call runs when the function returns: it clears for whoever comes next, not for what this body
+		// renders in the meantime
+		deferred := map[*ast.CallExpr]bool{}
+		directNodes(b.body, func(n ast.Node) bool {
+			if ds, ok := n.(*ast.DeferStmt); ok {
+				deferred[ds.Call] = true
+			}
+			return true
+		})
 		directNodes(b.body, func(n ast.Node) bool {
 			switch n := n.(type) {
 			case *ast.ReturnStmt:
@@ -174,7 +183,13 @@ func handWrittenComponents(c *Ctx) {
 			okR := true
 			bad := ""
 			for _, r := range renders {
-				if !dominatedBySome(r) {
+				before := false
+				for _, cl := range clears {
+					if !deferred[cl] && fc.dominates(cl, r) {
+						before = true
+					}
+				}
+				if !before {
 					okR = false
 					bad = c.pos(r.Pos())
 				}
